@@ -164,6 +164,21 @@ def corruptions(jp):
     out.append((good_p, p_op, "parser: the top operator of the filter changed"))
     out.append((good_pe, p_kind, "parser: a typing error reported as a syntax error"))
     out.append((good_p, p_out, "parser: an accepted query reported as rejected"))
+    # the helper API
+    cq = jp.compile("$.a[0]")
+    doc = {"a": [5]}
+    nl = cq.find(doc)
+    good_api = {"op": "api", "q": core.enc_text("$.a[0]"), "doc": core.enc_value(doc), "singular": cq.singular_query(), "qempty": cq.empty(),
+                "out": "ok", "lempty": nl.empty(), "paths": [core.enc_text(p) for p in nl.paths()], "helpers_ok": True}
+
+    def api_sing(r):
+        r["singular"] = False
+
+    def api_path(r):
+        r["paths"][0][-2] = 49
+
+    out.append((good_api, api_sing, "api: singular_query() flipped"))
+    out.append((good_api, api_path, "api: a digit of a normalized path changed"))
     return out
 
 
